@@ -100,3 +100,124 @@ fn __verif_n_c15_type_info() {
         if accepted == 0 { println!("VERIF-N id=N/n_c15_type_info/ownership_flags status=unknown"); } else { println!("VERIF-N id=N/n_c15_type_info/ownership_flags status=ok cases={cases} distinct={accepted} bound=\"{bound}\""); }
     }
 }
+
+/// The typing rules of the structural core, as laws over the real signatures (C15: "every argument
+/// has exactly the declared type", "a value is duplicated / dropped only if its type allows it"):
+///   dup<T>   accepted <=> T duplicatable,  (T) -> (T, T)        drop<T>  accepted <=> T droppable,  (T) -> ()
+///   store_temp<T> accepted ==> T storable, (T) -> (T)           rename<T>: (T) -> (T)
+///   into_box<T>: (T) -> (Box<T>)          unbox<T>: (Box<T>) -> (T)
+///   snapshot_take<T>: (T) -> (T, S) with S = T if T is duplicatable, else Snapshot<T>
+///   struct_construct<S>: (members..) -> (S)     struct_deconstruct<S>: (S) -> (members..)
+///   enum_init<E, i>: (variant i) -> (E)         enum_match<E>: (E) -> branch b: (variant b)
+///   array_new<T>: () -> (Array<T>)              array_append<T>: (Array<T>, T) -> (Array<T>)
+///   unwrap_non_zero<T>: (NonZero<T>) -> (T)     nullable_from_box<T>: (Box<T>) -> (Nullable<T>)
+///   null<T>: () -> (Nullable<T>)                match_nullable<T>: (Nullable<T>) -> (), (Box<T>)
+#[test]
+fn __verif_n_c15_signatures() {
+    use crate::extensions::ConcreteLibfunc;
+    use crate::program::ConcreteTypeLongId;
+    std::panic::set_hook(Box::new(|_| {}));
+    let thorough = std::env::var("VERIF_TIER").map(|t| t == "thorough").unwrap_or(false);
+    let uni: Vec<Parsed> = universe(thorough).iter().map(parse_arg).filter(|p| matches!(p.arg, GenericArg::Type(_))).collect();
+    let ut = parse_arg(&value("ut@Foo"));
+    let base = base_program();
+    let (mut cases, mut accepted) = (0u64, 0u64);
+    let mut fails: Vec<(String, String, String)> = vec![];
+    // A long id as the code would look it up: generic<args..>
+    let long = |g: &str, args: Vec<GenericArg>| ConcreteTypeLongId { generic_id: g.into(), generic_args: args };
+    let tyarg = |p: &Parsed| p.arg.clone();
+    for t in &uni {
+        let GenericArg::Type(t_id) = &t.arg else { continue };
+        for lf_name in ["dup", "drop", "store_temp", "rename", "into_box", "unbox", "snapshot_take", "array_new", "array_append", "unwrap_non_zero", "nullable_from_box", "null", "match_nullable"] {
+            let mut p = assemble(&base, &[t], &Target::Libfunc(lf_name.to_string()));
+            cases += 1;
+            let reg = match registry_autodecl(&mut p) { Ok(r) => r, Err(_) => continue };
+            let t_info = {
+                // the type info of T, from a registry that certainly has it
+                let mut q = assemble(&base, &[t], &Target::Libfunc("rename".into()));
+                match registry_autodecl(&mut q) { Ok(Some(r)) => r.get_type(t_id).ok().map(|x| x.info().clone()), _ => None }
+            };
+            let Some(t_info) = t_info else { continue };
+            let shown = format!("{lf_name}<{}>", t.text);
+            match (lf_name, &reg) {
+                ("dup", r) => if r.is_some() != t_info.duplicatable { fails.push(("dup gate".into(), shown.clone(), format!("`{shown}` is {} although the type is {}duplicatable", if r.is_some() { "accepted" } else { "rejected" }, if t_info.duplicatable { "" } else { "not " }))); },
+                ("drop", r) => if r.is_some() != t_info.droppable { fails.push(("drop gate".into(), shown.clone(), format!("`{shown}` is {} although the type is {}droppable", if r.is_some() { "accepted" } else { "rejected" }, if t_info.droppable { "" } else { "not " }))); },
+                ("store_temp", Some(_)) => if !t_info.storable { fails.push(("store_temp gate".into(), shown.clone(), format!("`{shown}` is accepted although the type is not storable"))); },
+                _ => {}
+            }
+            let Some(reg) = reg else { continue };
+            accepted += 1;
+            let Ok(lf) = reg.get_libfunc(&"L".into()) else { continue };
+            let lid = |id: &crate::ids::ConcreteTypeId| reg.get_type(id).ok().map(|x| x.info().long_id.clone());
+            let ins: Vec<Option<ConcreteTypeLongId>> = lf.param_signatures().iter().map(|ps| lid(&ps.ty)).collect();
+            let outs: Vec<Vec<Option<ConcreteTypeLongId>>> = lf.branch_signatures().iter().map(|b| b.vars.iter().map(|v| lid(&v.ty)).collect()).collect();
+            let tl = Some(t_info.long_id.clone());
+            let w = |g: &str| Some(long(g, vec![tyarg(t)]));
+            let (want_in, want_out): (Vec<Option<ConcreteTypeLongId>>, Vec<Vec<Option<ConcreteTypeLongId>>>) = match lf_name {
+                "dup" => (vec![tl.clone()], vec![vec![tl.clone(), tl.clone()]]),
+                "drop" => (vec![tl.clone()], vec![vec![]]),
+                "store_temp" | "rename" => (vec![tl.clone()], vec![vec![tl.clone()]]),
+                "into_box" => (vec![tl.clone()], vec![vec![w("Box")]]),
+                "unbox" => (vec![w("Box")], vec![vec![tl.clone()]]),
+                "snapshot_take" => (vec![tl.clone()], vec![vec![tl.clone(), if t_info.duplicatable { tl.clone() } else { w("Snapshot") }]]),
+                "array_new" => (vec![], vec![vec![w("Array")]]),
+                "array_append" => (vec![w("Array"), tl.clone()], vec![vec![w("Array")]]),
+                "unwrap_non_zero" => (vec![w("NonZero")], vec![vec![tl.clone()]]),
+                "nullable_from_box" => (vec![w("Box")], vec![vec![w("Nullable")]]),
+                "null" => (vec![], vec![vec![w("Nullable")]]),
+                "match_nullable" => (vec![w("Nullable")], vec![vec![], vec![w("Box")]]),
+                _ => continue,
+            };
+            if ins != want_in || outs != want_out {
+                let show = |v: &Vec<Option<ConcreteTypeLongId>>| v.iter().map(|x| x.as_ref().map(|l| l.to_string()).unwrap_or("?".into())).collect::<Vec<_>>().join(", ");
+                if !fails.iter().any(|f| f.0 == format!("{lf_name} signature")) { fails.push((format!("{lf_name} signature"), shown.clone(), format!("`{shown}` has the signature ({}) -> {:?}, the typing rule says ({}) -> {:?}", show(&ins), outs.iter().map(show).collect::<Vec<_>>(), show(&want_in), want_out.iter().map(show).collect::<Vec<_>>()))); }
+            }
+        }
+    }
+    // structs and enums of two members
+    for a in &uni { for b in &uni {
+        let (GenericArg::Type(_), GenericArg::Type(_)) = (&a.arg, &b.arg) else { continue };
+        for generic in ["Struct", "Enum"] {
+            let comp_ty = Parsed { decls: { let mut d = a.decls.clone(); for x in &b.decls { if !d.iter().any(|y| y.id == x.id) { d.push(x.clone()); } } d.push(crate::program::TypeDeclaration { id: "C".into(), long_id: long(generic, vec![ut.arg.clone(), a.arg.clone(), b.arg.clone()]), declared_type_info: None }); d }, arg: GenericArg::Type("C".into()), text: format!("{generic}<ut@Foo, {}, {}>", a.text, b.text) };
+            let members = vec![Some(long_of(&a.decls, &a.arg)), Some(long_of(&b.decls, &b.arg))];
+            let cl = Some(long(generic, vec![ut.arg.clone(), a.arg.clone(), b.arg.clone()]));
+            let checks: Vec<(&str, Vec<Parsed>)> = if generic == "Struct" { vec![("struct_construct", vec![]), ("struct_deconstruct", vec![])] } else { vec![("enum_init", vec![parse_arg(&value("0"))]), ("enum_init", vec![parse_arg(&value("1"))]), ("enum_match", vec![])] };
+            for (lf_name, extra) in checks {
+                let mut args: Vec<&Parsed> = vec![&comp_ty];
+                args.extend(extra.iter());
+                let mut p = assemble(&base, &args, &Target::Libfunc(lf_name.to_string()));
+                cases += 1;
+                let Ok(Some(reg)) = registry_autodecl(&mut p) else { continue };
+                accepted += 1;
+                let Ok(lf) = reg.get_libfunc(&"L".into()) else { continue };
+                let lid = |id: &crate::ids::ConcreteTypeId| reg.get_type(id).ok().map(|x| x.info().long_id.clone());
+                let ins: Vec<Option<ConcreteTypeLongId>> = lf.param_signatures().iter().map(|ps| lid(&ps.ty)).collect();
+                let outs: Vec<Vec<Option<ConcreteTypeLongId>>> = lf.branch_signatures().iter().map(|b| b.vars.iter().map(|v| lid(&v.ty)).collect()).collect();
+                let (want_in, want_out) = match (lf_name, extra.first().map(|e| e.text.as_str())) {
+                    ("struct_construct", _) => (members.clone(), vec![vec![cl.clone()]]),
+                    ("struct_deconstruct", _) => (vec![cl.clone()], vec![members.clone()]),
+                    ("enum_init", Some("0")) => (vec![members[0].clone()], vec![vec![cl.clone()]]),
+                    ("enum_init", _) => (vec![members[1].clone()], vec![vec![cl.clone()]]),
+                    _ => (vec![cl.clone()], vec![vec![members[0].clone()], vec![members[1].clone()]]),
+                };
+                if ins != want_in || outs != want_out {
+                    let show = |v: &Vec<Option<ConcreteTypeLongId>>| v.iter().map(|x| x.as_ref().map(|l| l.to_string()).unwrap_or("?".into())).collect::<Vec<_>>().join(", ");
+                    let shown = format!("{lf_name}<{}{}>", comp_ty.text, extra.first().map(|e| format!(", {}", e.text)).unwrap_or_default());
+                    if !fails.iter().any(|f| f.0 == format!("{lf_name} signature")) { fails.push((format!("{lf_name} signature"), shown.clone(), format!("`{shown}` has the signature ({}) -> {:?}, the typing rule says ({}) -> {:?}", show(&ins), outs.iter().map(show).collect::<Vec<_>>(), show(&want_in), want_out.iter().map(show).collect::<Vec<_>>()))); }
+                }
+            }
+        }
+    } }
+    let bound = format!("{cases} declarations of 18 structural libfuncs over {} member types (pairs for structs and enums), {accepted} accepted", uni.len());
+    for (k, (key, input, why)) in fails.iter().enumerate() {
+        println!("VERIF-N id=N/n_c15_type_info/structural_signatures:{} status=fail key=\"{}\" input=\"{}\" detail=\"{}\" bound=\"{bound}\"", k + 1, key.replace('"', "'"), input.replace('"', "'"), why.replace('"', "'"));
+    }
+    if fails.is_empty() {
+        if accepted == 0 { println!("VERIF-N id=N/n_c15_type_info/structural_signatures status=unknown"); } else { println!("VERIF-N id=N/n_c15_type_info/structural_signatures status=ok cases={cases} distinct={accepted} bound=\"{bound}\""); }
+    }
+}
+/// The long id declared for the type argument `arg` in `decls`.
+fn long_of(decls: &[crate::program::TypeDeclaration], arg: &GenericArg) -> crate::program::ConcreteTypeLongId {
+    let GenericArg::Type(id) = arg else { panic!("not a type") };
+    decls.iter().find(|d| d.id == *id).map(|d| d.long_id.clone()).unwrap_or_else(|| crate::program::ConcreteTypeLongId { generic_id: "felt252".into(), generic_args: vec![] })
+}
